@@ -1,5 +1,6 @@
 import TaskModel.Finger.MachineLemmas
 import TaskModel.Finger.Facts
+import TaskModel.Finger.WriteSites
 /-!
 # C12 — query and dry-run modes have no side effects
 
@@ -166,5 +167,22 @@ example :
     (invoke Cfg.fixed id prT 0 .status (envF 10) s3).1 = s3 ∧ (invoke Cfg.fixed id prT 0 .listJson (envF 10) s3).1 = s3 ∧
     (invoke Cfg.fixed id prT 0 .list (envF 10) s3).1 = s3 ∧ (invoke Cfg.fixed id prT 0 .summary (envF 10) s3).1 = s3 := by
   decide
+
+/-! ## Every writer of the module is accounted for
+
+`Gen.WriteSites` lists every `os` call of the module that creates, changes or removes something in the file system;
+each is dry-guarded in its own function, dry-guarded at every call site of its function, part of a non-query action,
+or the remote-Taskfile cache (`TaskModel.Finger.WS`).  This is what makes the model's writers ALL the writers. -/
+
+theorem write_sites_reviewed : TaskModel.Gen.WriteSites.sites.all TaskModel.Finger.WS.siteOk = true := by decide
+
+/-- the table is the real one -/
+theorem write_sites_nonempty : TaskModel.Gen.WriteSites.sites.length ≥ 12 := by decide
+
+/-- non-vacuity: an unguarded writer, a writer in a new place, and a guarded function called once without the guard are rejected -/
+example :
+    TaskModel.Finger.WS.siteOk ("internal/fingerprint:ChecksumChecker.IsUpToDate", "os.WriteFile", ["‹string› != ‹string›"], []) = false ∧
+    TaskModel.Finger.WS.siteOk ("internal/summary:PrintTask", "os.WriteFile", [], []) = false ∧
+    TaskModel.Finger.WS.siteOk ("task:Executor.mkdir", "os.MkdirAll", [], [("task:Executor.RunTask", ["!‹*task.Executor›.Dry"]), ("task:Executor.Status", [])]) = false := by decide
 
 end Props.C12
